@@ -1,3 +1,61 @@
-From HV Require Import Base.Prelude.
-Theorem C01_placeholder : True. Proof. exact I. Qed.
-Print Assumptions C01_placeholder.
+(* C01 - dataset write / close / reopen / read: chunk tiling and element round trips (unit level).
+   Model: Model/Chunk.v, Model/Elem.v.  Lemmas: Proofs/Chunk*.v, Proofs/Elem.v.
+   Non-vacuity examples: Proofs/ChunkExamples.v. *)
+From HV Require Import Base.Prelude Model.Chunk Model.Elem
+  Proofs.ChunkLists Proofs.ChunkSpec Proofs.ChunkCoords Proofs.ChunkTiling Proofs.Elem Proofs.ChunkExamples.
+From Coq Require Import Permutation.
+
+(* every rank >= 1, every positive extents / chunk extents (larger, equal, non-dividing), every
+   element size: the reader's placement of all chunks the writer emits rebuilds the data *)
+Theorem C01_chunk_tiling : forall dims cdims esz data,
+  shape_ok dims cdims esz -> lenN data = vol dims esz ->
+  read_chunked dims cdims esz (write_chunks dims cdims esz data) = Ok data.
+Proof. exact chunk_tiling. Qed.
+Print Assumptions C01_chunk_tiling.
+
+(* the chunk index may present the chunks in any order *)
+Theorem C01_order_irrelevant : forall dims cdims esz data chunks,
+  shape_ok dims cdims esz -> lenN data = vol dims esz ->
+  Permutation chunks (write_chunks dims cdims esz data) ->
+  read_chunked dims cdims esz chunks = read_chunked dims cdims esz (write_chunks dims cdims esz data).
+Proof. exact chunk_order_irrelevant. Qed.
+Print Assumptions C01_order_irrelevant.
+
+(* the loop over linear chunk indices visits every chunk coordinate exactly once, row-major *)
+Theorem C01_chunk_enumeration : forall dims cdims,
+  Forall (fun x => 0 < x) dims -> Forall (fun x => 0 < x) cdims ->
+  all_chunk_coords dims cdims = coords_of (num_chunks dims cdims).
+Proof. exact all_chunk_coords_enum. Qed.
+Print Assumptions C01_chunk_enumeration.
+
+(* integers of either signedness, every width: the reader (using the recorded sign bit) recovers
+   the written value *)
+Theorem C01_int_roundtrip : forall w signed v,
+  (0 < w)%nat -> in_range w signed v -> dec_int w signed (enc_int w v) = v.
+Proof. exact int_roundtrip. Qed.
+Print Assumptions C01_int_roundtrip.
+
+(* in particular unsigned values with the top bit set are not read as negative *)
+Theorem C01_unsigned_nonneg : forall w v,
+  (0 < w)%nat -> in_range w false v -> (0 <= dec_int w false (enc_int w v))%Z.
+Proof. exact unsigned_nonneg. Qed.
+Print Assumptions C01_unsigned_nonneg.
+
+Theorem C01_float64_bits : forall bits, bits < 2 ^ 64 -> to_f64_f64 (enc_f64 bits) = bits.
+Proof. exact f64_roundtrip. Qed.
+Print Assumptions C01_float64_bits.
+
+(* fixed strings: what was written, cut to the size and at the first NUL *)
+Theorem C01_string_roundtrip : forall n s, dec_string n (enc_string n s) = until_nul (firstn n s).
+Proof. exact string_roundtrip. Qed.
+Print Assumptions C01_string_roundtrip.
+
+(* the reader's int -> float64 widening (f64_of_Z, tied to the Go conversion on bit patterns) is exact
+   for 0 < |z| < 2^53: sign, significand m = |z| * 2^(52 - log2 |z|) and exponent e = log2 |z| - 52,
+   i.e. (-1)^s * m * 2^e = z *)
+Theorem C01_widen_exact : forall z, (0 < Z.abs z < 2 ^ 53)%Z ->
+  f64_fields (f64_of_Z z)
+  = ((z <? 0)%Z, Z.to_N (Z.abs z) * 2 ^ (52 - N.log2 (Z.to_N (Z.abs z))),
+     (Z.of_N (N.log2 (Z.to_N (Z.abs z))) - 52)%Z).
+Proof. exact f64_of_Z_exact. Qed.
+Print Assumptions C01_widen_exact.
